@@ -43,6 +43,26 @@ def rdLine (it : Except NumErr Int) (v : Except NumErr F64.Bits) (collapse : Boo
     | .ok b => s!"ok:iters={n}:val={F64.toHex (F64.canonNaN b)}"
 
 
+/-- the class of finding N3E: an accepted numeral whose exponent literal is 100000 or more and whose
+mantissa text is not `Moderate` (Proofs/Lemmas/C03Clamp.lean: at most 9669 significant digits before
+the point and 9691 after it; hex 2231 and 2244) -/
+def inClassN3E (num : Bytes) : Bool :=
+  let body := Spec.NumText.strip (Spec.NumText.splitSign num).2
+  let hex := Spec.NumText.isHexPrefix body
+  let u := if hex then body.drop 2 else body
+  let dig : UInt8 → Bool := if hex then Spec.NumText.isHexDig else Spec.NumText.isDec
+  let ip := u.takeWhile dig
+  let r1 := u.dropWhile dig
+  let (fp, r2) := match r1 with
+    | 46 :: r' => (r'.takeWhile dig, r'.dropWhile dig)
+    | _ => ([], r1)
+  let lit := match r2 with
+    | _ :: r3 => Spec.NumText.valOf 10 (Spec.NumText.splitSign r3).2
+    | [] => 0
+  let sig := (ip.dropWhile (· == 48)).length
+  let moderate := if hex then sig ≤ 2231 && fp.length ≤ 2244 else sig ≤ 9669 && fp.length ≤ 9691
+  (Spec.NumText.recognise num).isSome && lit ≥ 100000 && !moderate
+
 def handle (l : Line) : IO Unit := do
   if l.kind != "case" then return
   let id := l.id
@@ -77,7 +97,12 @@ def handle (l : Line) : IO Unit := do
     if l.getD "spec" == "1" then
       let sv := parseFloatSpec num
       let si := parseIntSpec iters
-      let kf := if inClassN3 num then " kf=N3" else ""
+      -- known findings: N3 (more than 800 significant digits before the point), N3E (exponent
+      -- literal >= 100000 with a compensating mantissa text — tagged only where the specification
+      -- really differs from the model of the code)
+      let n3 := inClassN3 num
+      let n3e := inClassN3E num && specF sv != specF (parseFloat num).toExcept
+      let kf := if n3 && n3e then " kf=N3+N3E" else if n3 then " kf=N3" else if n3e then " kf=N3E" else ""
       IO.println s!"spec {id} impl rd={rdLine si sv true}{kf}"
       IO.println s!"spec {id} strconv val={specF sv} iters={specI si}"
       IO.println s!"spec {id} direct val={specF sv} ratof={specF sv} iters={specI si}"
